@@ -1,11 +1,23 @@
 """C18 — prime-field arithmetic (fp, primes, SpVecFP) matches arithmetic modulo p.
-Theorems: Properties_C18.v.  Tie: exact comparison of ext_gcd / get_mult_inverse / is_prime / SpVecFP histories
-between the real templates (long long and cpp_int instantiations, harness/c18.cpp) and the extracted model."""
-import json, math, os
+Theorems: Properties_C18.v (functional statements over Z) and Properties_C18_overflow.v (every intermediate value of the
+computation is bounded: the built-in instantiations cannot overflow inside the stated domain).
+Tie: exact comparison of ext_gcd / get_mult_inverse / is_prime / SpVecFP histories between the real templates
+(long long, int and cpp_int instantiations, harness/c18.cpp) and the extracted model; the built-in instantiations are
+additionally driven right up to the proved bounds in two builds with -fsanitize=signed-integer-overflow
+-fno-sanitize-recover=all (with and without the extras of PARMCB_INVARIANTS_CHECK) and compared with the extracted TRACED
+model (component c18ov), which also predicts, case by case, whether some intermediate value leaves the type."""
+import json, math, os, re
 import lib
 
 PID = "C18"
-THEOREMS = ["Properties_C18.v"]
+THEOREMS = ["Properties_C18.v", "Properties_C18_overflow.v"]
+UBSAN = ["-fsanitize=signed-integer-overflow", "-fno-sanitize-recover=all"]
+# the three builds of harness/c18.cpp
+BUILDS = {"c18": dict(name="c18", srcs=["c18.cpp"]),
+          "c18_ubsan": dict(name="c18_ubsan", srcs=["c18.cpp"], flags=UBSAN),                                  # repository configuration (PARMCB_INVARIANTS_CHECK, assertions on)
+          "c18_ubsan_nochk": dict(name="c18_ubsan_nochk", srcs=["c18.cpp"], flags=UBSAN, defines=["C18_NO_INVARIANTS_CHECK"])}   # without the invariant checks
+TMAX = {"": 2 ** 63 - 1, "i": 2 ** 31 - 1}      # kind suffix -> largest value of the C++ type ("" = long long, "i" = int)
+SQRT_SIDE = 2 ** 52                              # long long is_prime: sqrt goes through a double (documented side condition)
 SMALL_PRIMES = [2, 3, 5, 7, 11, 13, 101, 257, 65537, 2147483647]
 BIG_PRIMES = [170141183460469231731687303715884105727, 2305843009213693951, 1000000007]
 
@@ -95,7 +107,7 @@ def dense_vec(line):
 
 def judge(case, impl):
     """does the implementation's answer violate the property text? returns reason or None"""
-    t = case.split(); kind = t[0]
+    t = case.split(); kind = t[0][0] + ("B" if t[0].endswith("B") else "")     # the type suffix i (int) does not matter to the judge
     try:
         if kind in ("G", "GB"):
             a, b = int(t[1]), int(t[2]); r = impl.split()
@@ -157,15 +169,254 @@ def gen_cases(c, tier):
     return cases
 
 
+# ------------------------------------------------------------------------------------------------------------------
+# the built-in instantiations up to the proved bounds (Properties_C18_overflow.v)
+# ------------------------------------------------------------------------------------------------------------------
+LL_PRIMES = [9223372036854775783, 9223372036854775643, 6148914691236517223, 4611686018427388039, 2305843009213693951, 3037000507, 3037000493]
+INT_PRIMES = [2147483647, 2147483629, 2147483587, 1431655777, 1073741827, 46349, 46337]
+
+
+def near_max_int(rng, mx):
+    """values biased to the ends of [-mx, mx]: the maximum, halves, thirds, Fibonacci numbers (worst case of Euclid), powers of two"""
+    r = rng.random()
+    fib = [1, 1]
+    while fib[-1] + fib[-2] <= mx: fib.append(fib[-1] + fib[-2])
+    if r < 0.2: v = mx - rng.randint(0, 3)
+    elif r < 0.3: v = mx // rng.choice([2, 3, 4]) + rng.randint(-2, 2)
+    elif r < 0.45: v = rng.choice(fib[-6:])
+    elif r < 0.55: v = 2 ** rng.randint(2, mx.bit_length() - 1) + rng.choice([-1, 0, 1])
+    elif r < 0.65: v = rng.randint(0, 50)
+    elif r < 0.75: v = rng.randint(1, 2 ** (mx.bit_length() // 2 + 1))
+    else: v = rng.randint(0, mx)
+    v = min(v, mx)
+    return v if rng.random() < 0.5 else -v
+
+
+def gen_wide_history(rng, sfx, maxops, outside):
+    """SpVecFP history over a built-in type whose products reach (p-1)*max(2,p-1,B) ~ max(T); outside: slightly beyond"""
+    mx = TMAX[sfx]; root = math.isqrt(mx) + 1                                  # (root-1)^2 <= mx < root^2
+    r = rng.random()
+    if r < 0.35: p = root - rng.randint(0, 3)
+    elif r < 0.5: p = rng.choice([q for q in (LL_PRIMES if sfx == "" else INT_PRIMES) if q <= root])
+    elif r < 0.7: p = rng.choice([2, 3, 5, 7, 11, 257, 65537, 4, 6, 9])
+    else: p = rng.randint(2, root)
+    if outside and rng.random() < 0.5: p = root + rng.randint(1, 3)
+    B = mx // (p - 1)                                                           # |scalar| <= B keeps (p-1)*|scalar| <= max(T)
+    if outside and rng.random() < 0.7: B = min(mx, B + 1 + rng.randint(0, 2))     # scalars must still be values of the type
+    K = rng.randint(2, 3); D = rng.choice([1, 2, 4]); ops = []
+    def scalar():
+        q = rng.random()
+        if q < 0.35: return rng.choice([B, -B, B - 1, 1 - B])
+        if q < 0.6: return rng.choice([-1, 1, p - 1, 1 - p, p, -p, 0]) if p <= B else rng.choice([-1, 1, 0])
+        if q < 0.75: return rng.randint(-20, 20)
+        return rng.randint(-B, B)
+    # make large entries early: unit vectors times -1 hold p-1
+    for d in range(K):
+        ops.append("U %d %d" % (d, rng.randrange(D)))
+        if rng.random() < 0.8: ops.append("R %d -1" % d)
+    for _ in range(rng.randint(1, maxops)):
+        r = rng.random(); d, a, b = rng.randrange(K), rng.randrange(K), rng.randrange(K)
+        if r < 0.1: ops.append("U %d %d" % (d, rng.randrange(D)))
+        elif r < 0.3: ops.append("P %d %d %d" % (d, a, b))
+        elif r < 0.42: ops.append("Q %d %d" % (d, a))
+        elif r < 0.62: ops.append("S %d %d %d" % (d, a, scalar()))
+        elif r < 0.74: ops.append("R %d %d" % (d, scalar()))
+        elif r < 0.94: ops.append("D %d %d" % (a, b))
+        else: ops.append("Z %d" % a)
+    return "V%s %d %d %d %d %s" % (sfx, p, K, D, len(ops), " ".join(ops))
+
+
+def gen_wide_cases(c, tier):
+    """cases for the built-in types near the bounds of Properties_C18_overflow.v; a small share lies just OUTSIDE them (the minimum
+    value of the type, moduli above sqrt(max)+1, scalars above max/(p-1)): there the traced model predicts the overflow"""
+    rng = c.rng; cases = []
+    n = 1500 if tier == "quick" else 15000
+    for sfx in ("", "i"):
+        mx = TMAX[sfx]; primes = LL_PRIMES if sfx == "" else INT_PRIMES
+        for _ in range(n):
+            cases.append("G%s %d %d" % (sfx, near_max_int(rng, mx), near_max_int(rng, mx)))
+        for a in (mx, -mx, mx - 1, 1 - mx):
+            for b in (mx, -mx, mx - 1, 1 - mx, 0, 1, -1, 2, 5, mx // 2, mx // 2 + 1):
+                cases.append("G%s %d %d" % (sfx, a, b)); cases.append("G%s %d %d" % (sfx, b, a))
+        for b in (0, 1, 3, -5, mx, -mx - 1):                                    # the minimum value: -a is not representable
+            cases.append("G%s %d %d" % (sfx, -mx - 1, b)); cases.append("G%s %d %d" % (sfx, b, -mx - 1))
+        for _ in range(n // 2):
+            r = rng.random()
+            if r < 0.5: p = rng.choice(primes[:4])
+            elif r < 0.7: p = mx - rng.randint(0, 40)
+            elif r < 0.8: p = rng.choice([mx // 2 + rng.randint(-3, 3), mx // 3 * 2 + rng.randint(0, 5)])
+            else: p = rng.randint(1, mx)
+            a = near_max_int(rng, mx) if rng.random() < 0.7 else rng.randint(-60, 60)
+            cases.append("I%s %d %d" % (sfx, a, p))
+        for _ in range(n // 5):
+            cases.append(gen_wide_history(rng, sfx, 12 if tier == "quick" else 30, False))
+        for _ in range(n // 40):
+            cases.append(gen_wide_history(rng, sfx, 8, True))
+    # is_prime<int> up to 2^31 - 1 (the model's loop runs at most 46341 times there)
+    mx = TMAX["i"]
+    ps = set(INT_PRIMES + [mx - k for k in range(0, 60)] + [46340 ** 2 + k for k in range(-4, 5)] + [46339 ** 2, 46337 ** 2, 46337 * 46349, 3 * 715827881])
+    for _ in range(150 if tier == "quick" else 1500):
+        ps.add(rng.randint(2, mx))
+    cases += ["Pi %d" % q for q in sorted(ps) if 2 <= q <= mx]
+    # is_prime<long long> just below 2^52 (trial division up to 2^26 in the code; the model is not executed, see check)
+    for q in ([4503599627370449, 4503599627370495, 67108859 * 67108837] if tier == "quick" else
+              [4503599627370449, 4503599627370439, 4503599627370495, 67108859 * 67108837, 67108859 ** 2, 4503599627370493]):
+        cases.append("P %d" % q)
+    return cases
+
+
+def parse_ov(line):
+    """model line of component c18ov -> (answer, (lo, hi), (lo_chk, hi_chk) or None)"""
+    parts = [x.strip() for x in line.split(" | ")]
+    a = parts[1].split()
+    rng0 = (int(a[0]), int(a[1]))
+    rng1 = None
+    if len(parts) > 2:
+        b = parts[2].split(); rng1 = (int(b[0]), int(b[1]))
+    return parts[0], rng0, rng1
+
+
+def is_overflow_report(impl):
+    return impl.startswith("CRASH") and "runtime error" in impl and ("overflow" in impl or "negation of" in impl)
+
+
+OVF_RE = re.compile(r"fp\.hpp:\d+:\d+: runtime error: signed integer overflow: (-?\d+) ([*+-]) (-?\d+) cannot be represented")
+
+
+def known_signature(fid, case, impl, san):
+    """is this answer exactly the documented behaviour of the known finding?  (matched on the operands of the reported operation, not on
+    line numbers)  D18a: the assertion of ext_gcd multiplies an argument by its coefficient, or adds the two products (their sum is the gcd);
+    D18b: is_prime squares sqrtt = floor(sqrt p) + 1; in the plain build the wrapped square makes is_prime throw"""
+    t = case.split()
+    if not san:
+        return fid == "D18b" and impl == "P THROW"
+    m = OVF_RE.search(impl)
+    if not (impl.startswith("CRASH") and m): return False
+    u, op, v = int(m.group(1)), m.group(2), int(m.group(3))
+    if fid == "D18b":
+        return op == "*" and u == v == math.isqrt(int(t[1])) + 1
+    a, b = int(t[1]), int(t[2])
+    if op == "*": return u in (a, b) or v in (a, b)
+    return op == "+" and u + v == math.gcd(a, b)
+
+
+def check_wide(c, exes):
+    """run the near-the-bounds stream through the sanitizer builds (and the vector / is_prime part through the plain build) and
+    compare with the traced model"""
+    cases = gen_wide_cases(c, c.tier)
+    findings = {f["id"]: f for f in lib.known_findings(PID)}
+    def heavy(cs):
+        t = cs.split(); return t[0] == "P" and int(t[1]) > 10 ** 12
+    light = [i for i, cs in enumerate(cases) if not heavy(cs)]
+    mo_l = lib.run_model("c18ov", [cases[i] for i in light])
+    mo = [None] * len(cases)
+    for i, m in zip(light, mo_l): mo[i] = m
+    known = {"D18a": [], "D18b": []}
+    reported = {}
+    stats = {"predicted_overflow_confirmed": 0, "inside_bounds_compared": 0}
+    def report(kind, why, rec, found):
+        if sanlog and re.search(r"Sanitizer|runtime error:", rec.get("impl") or ""):
+            with open(sanlog, "a") as f:
+                f.write(json.dumps({"cmd": [exes.get(rec.get("build"))], "case": rec["case"], "rc": 1, "report": rec["impl"]}) + "\n")
+        key = (kind, rec.get("build"), found)
+        if reported.get(key, 0) >= 2: return
+        reported[key] = reported.get(key, 0) + 1
+        c.violation(why, rec, found)
+    # sanitizer re-run by C07 (VERIF_SANITIZE): all three builds carry the sanitizers.  The reports this stream EXPECTS (cases outside the
+    # bounds, known findings D18a/D18b) must not be logged as "report on a valid input"; every unexpected one is logged by report() below
+    sanlog = os.environ.pop("VERIF_SAN_LOG", None)
+    all_san = bool(os.environ.get("VERIF_SANITIZE"))
+    for build in ("c18_ubsan_nochk", "c18_ubsan", "c18"):
+        exe = exes.get(build)
+        if not exe: continue
+        chk = build != "c18_ubsan_nochk"; san = build != "c18" or all_san
+        idx = []; n_assert = {}
+        for i, cs in enumerate(cases):
+            t = cs.split(); k = t[0][0]
+            if build == "c18" and k in "GI": continue                       # plain build: an overflowing assertion would be undefined behaviour there
+            if build == "c18_ubsan_nochk" and k == "I" and int(t[2]) <= 0: continue   # the p <= 0 test is one of the invariant checks
+            if build == "c18_ubsan" and k in "GI" and mo[i] is not None and " | " in mo[i]:
+                # most pairs near max(T) overflow in the assertion (D18a) and abort the process: a sample of them is enough
+                _, q0, q1 = parse_ov(mo[i]); mx = TMAX[t[0][1:]]
+                if -mx - 1 <= q0[0] and q0[1] <= mx and not (-mx - 1 <= q1[0] and q1[1] <= mx):
+                    n_assert[t[0]] = n_assert.get(t[0], 0) + 1
+                    if n_assert[t[0]] > 40: continue
+            idx.append(i)
+        io = lib.run_lines([exe], [cases[i] for i in idx], timeout=900, env={"UBSAN_OPTIONS": "print_stacktrace=0:halt_on_error=1"})   # the report line itself must end the CRASH answer
+        for i, impl in zip(idx, io):
+            cs = cases[i]; t = cs.split(); k = t[0][0]; sfx = t[0][1:]; mx = TMAX[sfx]
+            rec = {"component": "c18ov", "build": build, "case": cs, "impl": impl, "model": mo[i]}
+            if mo[i] is None:                                               # is_prime<long long> near 2^52: Miller-Rabin reference, theorem C18_overflow_is_prime for the bounds
+                if int(t[1]) < SQRT_SIDE:
+                    why = judge(cs, impl)
+                    if why: report(k, why, rec, True)
+                    stats["inside_bounds_compared"] += 1
+                continue
+            if mo[i].startswith("MODEL-"):
+                report(k, "traced model fails on %s: %s" % (cs[:80], mo[i]), dict(rec, theorem_or_correspondence="extracted FpOverflowModel (c18ov)"), False); continue
+            ans, r0, r1 = parse_ov(mo[i])
+            fits0 = -mx - 1 <= r0[0] and r0[1] <= mx
+            fits1 = fits0 if (r1 is None or not chk) else (-mx - 1 <= r1[0] and r1[1] <= mx)
+            if not fits0:
+                # outside the proved domain: the traced model says some intermediate value leaves the type
+                if not san: continue
+                if is_overflow_report(impl): stats["predicted_overflow_confirmed"] += 1
+                else:
+                    report(k, "correspondence c18ov (%s, %s) no longer checks: the traced model predicts a value outside the type (trace range %d..%d) but the sanitizer build reports no overflow: %s"
+                           % (t[0], build, r0[0], r0[1], impl[:100]),
+                           dict(rec, theorem_or_correspondence="correspondence c18ov: traced FpOverflowModel vs harness/c18.cpp (%s)" % build), False)
+                continue
+            if not fits1:
+                # inside the domain of the theorems, but the extras of PARMCB_INVARIANTS_CHECK leave the type: known findings D18a / D18b
+                fid = "D18a" if k in "GI" else "D18b"
+                if impl == ans: continue                                    # repaired library
+                if fid in findings and known_signature(fid, cs, impl, san):
+                    known[fid].append((cs, impl, build)); continue
+                why = judge(cs, impl) or "%s answers %s" % (t[0], impl[:160])
+                report(k, why, rec, True); continue
+            stats["inside_bounds_compared"] += 1
+            if impl != ans:
+                why = judge(cs, impl)
+                if why or impl.startswith("CRASH"):
+                    report(k, why or ("%s did not return: %s" % (cs[:80], impl[:200])), rec, True)
+                else:
+                    report(k, "correspondence c18ov (%s, %s) no longer checks; implementation answer still satisfies the property text" % (t[0], build),
+                           dict(rec, theorem_or_correspondence="correspondence c18ov: traced FpOverflowModel vs harness/c18.cpp (%s), case kind %s" % (build, t[0])), False)
+            else:
+                why = judge(cs, impl)                                       # model and code agree: the independent judge must agree too
+                if why: report(k, why, rec, True)
+    if sanlog: os.environ["VERIF_SAN_LOG"] = sanlog
+    for i, cs in enumerate(cases):
+        t = cs.split(); k = t[0][0]
+        nt = (k == "G" and t[1] != "0" and t[2] != "0") or (k == "I" and int(t[2]) > 1) or (k == "P" and int(t[1]) >= 2) or k == "V"
+        c.count(cs, nt, bucket=t[0] + "-wide")
+    for fid, hits in known.items():
+        if hits:
+            cs, impl, build = min(hits, key=lambda h: len(h[0]))
+            c.known(findings[fid], "finding=%s signature=\"%s\" %d case(s) inside the domain of Properties_C18_overflow.v on which only the PARMCB_INVARIANTS_CHECK code overflows, e.g. %s -> %s (%s)"
+                    % (fid, findings[fid]["signature"], len(hits), cs, impl[:160], build))
+    c.extra["wide_stream"] = dict(stats, cases=len(cases), known_D18a=len(known["D18a"]), known_D18b=len(known["D18b"]))
+
+
 def check(tier, seed):
     c = lib.Check(PID, tier, seed, THEOREMS)
     c.rule = ("ext_gcd on sign/zero/boundary/Fibonacci-biased pairs (long long |v| < 2^31, cpp_int up to 2^200) and all pairs in [-6,6]^2; "
               "get_mult_inverse on prime, composite, 1 and non-positive moduli; is_prime on every p up to the tier bound plus squares/products of primes and random p < 1e9; "
-              "SpVecFP histories over prime and composite moduli with negative / multiple-of-p scalars; distinct by md5; non-trivial = "
+              "SpVecFP histories over prime and composite moduli with negative / multiple-of-p scalars; "
+              "wide stream (long long and int, sanitizer builds): pairs biased to max(T), max(T)/2, Fibonacci numbers and powers of two, incl. the minimum value (predicted overflow); "
+              "inverses modulo primes and composites up to max(T); is_prime<int> up to 2^31-1 and is_prime<long long> just below 2^52; vector histories with p up to "
+              "sqrt(max(T))+1, entries p-1 and scalars up to max(T)/(p-1), a share just outside the bounds; distinct by md5; non-trivial = "
               "gcd with both arguments non-zero, inverse with p > 1, p >= 2, history with an addition or scaling")
     c.step_prove()
     ok = c.step_model()
-    exe = c.harness(name="c18", srcs=["c18.cpp"])
+    built = lib.build_many(list(BUILDS.values()))
+    exes = {}
+    for nm, (e, err) in built.items():
+        if e is None:
+            c.violation("implementation harness %s does not compile against the working tree" % nm,
+                        {"theorem_or_correspondence": "harness build " + nm, "log": err, "kind": "impl-build"}, False)
+        else: exes[nm] = e
+    exe = exes.get("c18")
     if ok and exe:
         cases = []
         corpus = os.path.join(lib.ROOT, "corpus", PID)
@@ -184,6 +435,11 @@ def check(tier, seed):
         for i in heavy: mo[i] = "P 1" if is_prime_ref(int(cases[i].split()[1])) else "P 0"
         c.extra["is_prime_cases_beyond_model_execution"] = len(heavy)
         io = lib.run_lines([exe], cases, timeout=600)
+        # the same stream in the sanitizer build of the repository configuration: an overflow aborts the case (answer CRASH ...)
+        if exes.get("c18_ubsan"):
+            io_s = lib.run_lines([exes["c18_ubsan"]], cases, timeout=600)
+            for i, cs in enumerate(cases):
+                if io_s[i] != io[i] and io[i] == mo[i]: io[i] = io_s[i]
         for i, cs in enumerate(cases):
             t = cs.split(); k = t[0]
             nt = (k in ("G", "GB") and t[1] != "0" and t[2] != "0") or (k in ("I", "IB") and int(t[2]) > 1) or \
@@ -204,19 +460,41 @@ def check(tier, seed):
                 c.violation("correspondence c18 (%s) no longer checks; implementation answer still satisfies the property text" % k,
                             {"component": "c18", "theorem_or_correspondence": "correspondence c18: extracted FpModel vs harness/c18.cpp, case kind " + k,
                              "case": cases[i], "impl": io[i], "model": mo[i]}, False)
+        check_wide(c, exes)
     return c.finish(
-        assumptions=["built-in integer types: no overflow (|a|,|b| < 2^31 for long long pairs; p <= 2^31 and |scalar| < 2^31 for long long vectors); the theorems are over unbounded Z",
-                     "is_prime for long long takes floor of a double sqrt: exact for p < 2^52 (tested range p < 1e9)",
+        assumptions=["built-in integer types: no overflow is PROVED (Properties_C18_overflow.v) for ext_gcd / get_mult_inverse on all arguments above the minimum value of T, "
+                     "for is_prime on 2 <= p <= max(T), for SpVecFP when (p-1)*max(2,p-1,|scalar|) <= max(T); the minimum value of T is outside the domain (-a overflows)",
+                     "the extras of PARMCB_INVARIANTS_CHECK (assertion of ext_gcd: a*x, b*y; is_prime: sqrtt*sqrtt) overflow inside that domain: known findings D18a, D18b",
+                     "is_prime for long long takes floor of a double sqrt: exact for p < 2^52 (tested: every p < 1e9 of the stream and a few p just below 2^52)",
                      "PARMCB_INVARIANTS_CHECK defined as in the repository's build"],
         explanation="ext_gcd/mult_inverse/is_prime/SpVecFP theorems are proved for all integers over the model; this run compares the model with "
-                    "fp<T>, primes<T>, SpVecFP<T> for T = long long and cpp_int exactly (coefficients, exceptions, vector contents).")
+                    "fp<T>, primes<T>, SpVecFP<T> for T = long long, int and cpp_int exactly (coefficients, exceptions, vector contents). The built-in types are "
+                    "driven up to the proved bounds (|a|,|b| up to max(T), moduli up to max(T), vector moduli up to sqrt(max(T))+1 with scalars up to max(T)/(p-1)) in "
+                    "two -fsanitize=signed-integer-overflow builds and compared with the traced model, which predicts for every case whether an intermediate value "
+                    "leaves the type; cases just outside the bounds must be reported by the sanitizer.")
 
 
 def replay(path):
     r = json.load(open(path))
     lib.ensure_model()
-    exe, err = lib.build_cpp(name="c18", srcs=["c18.cpp"])
     line = r["case"]
+    if r.get("component") == "c18ov":
+        build = r.get("build", "c18_ubsan")
+        exe, err = lib.build_cpp(**BUILDS[build])
+        m, i = lib.run_model("c18ov", [line], par=1)[0], lib.run_lines([exe], [line], par=1)[0]
+        t = line.split(); mx = TMAX[t[0][1:]]
+        ans, r0, r1 = parse_ov(m)
+        chk = build != "c18_ubsan_nochk"
+        rr = r1 if (chk and r1 is not None) else r0
+        fits = -mx - 1 <= rr[0] and rr[1] <= mx
+        print("case :", line); print("build:", build); print("model:", m); print("impl :", i)
+        print("trace range of the traced model (with%s the invariant checks): %d..%d, fits the type: %s" % ("" if chk else "out", rr[0], rr[1], fits))
+        why = judge(line, i) if -mx - 1 <= r0[0] and r0[1] <= mx else None
+        print("judge:", why)
+        if why or (fits and i != ans) or (not fits and build != "c18" and not is_overflow_report(i) and i != ans):
+            print("VIOLATION property=%s replay=%s" % (PID, path)); return 1
+        return 0
+    exe, err = lib.build_cpp(name="c18", srcs=["c18.cpp"])
     m, i = lib.run_model("c18", [line], par=1)[0], lib.run_lines([exe], [line], par=1)[0]
     why = judge(line, i)
     print("case :", line); print("model:", m); print("impl :", i); print("judge:", why)
